@@ -70,6 +70,21 @@ CLAIMED = {
         "note": "floats as reals; transcendental functions uninterpreted with listed axioms (equality modulo field arithmetic and congruence); "
                 "divisions by zero are cut away (counted); f->0 / f->inf limits (sympy.limit) are outside the claim",
     },
+    "C03": {
+        "category": "other",
+        "text": "A grammar-directed generator in the harness owns the intended syntax tree; shapes, element classes, labels and every "
+                "alternative spelling (parameter omitted / value / +lower / +lower+upper / //upper / percentage limits / inf limits, fixed marker "
+                "F|f|none, implicit vs explicit outer series, version header, blanks, sub-circuits unspelled / open|inf / short|zero / bracketed / "
+                "bare element list) are explored exhaustively by solver-driven choices while every number is a symbolic real constrained only by "
+                "the validity predicate. The text (library emitter or harness printer, distinct sentinel numerals) is tokenised by the real "
+                "tokenizer, numerals are replaced by the symbolic reals and the real Parser runs; z3 decides per path whether the parsed "
+                "circuit can differ from the intended tree (structure up to merging, element order, labels, fixed flags, values, limits in any "
+                "order relative to class defaults), and whether re-serialisation or a deep copy can print a different text. Labels: every "
+                "ASCII label of <=2 (3) symbolic characters accepted by the real set_label must be read back from 'R{:label}'.",
+        "design_ref": "DESIGN.md section 4, C03",
+        "note": "number formatting abstracted (printed numbers are arbitrary reals keeping lower<=value<=upper, lower<upper); trees <=3 leaves, "
+                "depth <=2; two known findings about labels are listed in known_findings.json; the builder goes through the same emitter+parser",
+    },
     "C04": {
         "category": "other",
         "text": "Two composing obligations on the real code, decided by z3: (1) inductive tokenizer step -- from every tokenizer state (previous "
